@@ -31,6 +31,7 @@ const (
 	kStrList  // []string
 	kSuitePtr // *SuiteConfig (an in/out parameter)
 	kHashCtor // func() hash.Hash: which hash it constructs, nil when unset
+	kBig      // *big.Int: its value
 	kOther
 )
 
@@ -101,6 +102,9 @@ func (t *tr) kindOf(ty types.Type) kind {
 			}
 		}
 		if n, ok := u.Elem().(*types.Named); ok {
+			if n.Obj().Name() == "Int" && n.Obj().Pkg() != nil && n.Obj().Pkg().Path() == "math/big" {
+				return kBig
+			}
 			if n.Obj().Name() == "Param" {
 				return kParamPtr
 			}
@@ -148,7 +152,7 @@ func (t *tr) coqType(n ast.Node, ty types.Type) string {
 	switch t.kindOf(ty) {
 	case kU8, kU32, kU64:
 		return "N"
-	case kI64, kI32:
+	case kI64, kI32, kBig:
 		return "Z"
 	case kBool:
 		return "bool"
